@@ -121,4 +121,11 @@ SEEDS = [
 			fs.table.SetCluster(allocated[lastAlloc], fs.table.EOCMarker())
 		}
 	} else {''')]},
+ {"name": "c08-fsinfo-free-count-written-at-last-allocated", "properties": ["C08"], "expect": "C08-e|",
+  "edits": [e("filesystem/fat32/fsinfosector.go", "binary.LittleEndian.PutUint32(b[488:492], fsis.freeDataClustersCount)", "binary.LittleEndian.PutUint32(b[492:496], fsis.freeDataClustersCount)"),
+            e("filesystem/fat32/fsinfosector.go", "binary.LittleEndian.PutUint32(b[492:496], fsis.lastAllocatedCluster)", "binary.LittleEndian.PutUint32(b[488:492], fsis.lastAllocatedCluster)")]},
+ {"name": "c08-ebpb-backup-boot-sector-read-from-fsinfo-field", "properties": ["C08"], "expect": "C08-e|",
+  "edits": [e("filesystem/fat32/dos71bpb.go", "bpb.backupBootSector = binary.LittleEndian.Uint16(b[39:41])", "bpb.backupBootSector = binary.LittleEndian.Uint16(b[37:39])")]},
+ {"name": "c08-ebpb-root-cluster-written-big-endian", "properties": ["C08"], "expect": "C08-e|",
+  "edits": [e("filesystem/fat32/dos71bpb.go", "binary.LittleEndian.PutUint32(b[33:37], bpb.rootDirectoryCluster)", "binary.BigEndian.PutUint32(b[33:37], bpb.rootDirectoryCluster)")]},
 ]
